@@ -166,6 +166,31 @@ func runC13(c *Ctx) {
 					keyOK = false
 				}
 			}
+			// ... whatever the new process's flags are: from the insertion every path to the return (or backwards, from
+			// the entry to the insertion) passes a call that registers the state and one that registers the log
+			for _, reg := range []struct {
+				name string
+				fld  *types.Var
+			}{{"state", s.FStates}, {"log", s.FLogs}} {
+				d := p.Deep(MapUpdateOn(reg.name, reg.fld))
+				barrier := func(x ssa.Instruction) bool {
+					switch x.(type) {
+					case *ssa.Go, *ssa.Defer:
+						return false
+					}
+					return d.MayAt(x)
+				}
+				before := !Reach(Entry(f), barrier, nil)[in]
+				after1 := true
+				for x := range Reach([]Pt{after(in)}, barrier, nil) {
+					if _, isRet := x.(*ssa.Return); isRet {
+						after1 = false
+					}
+				}
+				if !before && !after1 {
+					ok = false
+				}
+			}
 			c.Check(ok && keyOK, r2, "insert:"+p.FuncKey(f), p.InstrPos(in), "state and log registered under the same key", "a process is added to project.Processes without a state record and a log buffer under the same replica name (state queries fail / logs are lost for the new replica)")
 		}
 	}
@@ -358,6 +383,30 @@ func runC13(c *Ctx) {
 		}
 		n4++
 		c.Touch(f)
+		// every added replica is decoded into a fresh value: the target of json.Unmarshal is allocated inside the
+		// iteration (decoding into a populated struct reuses its non-nil pointers and maps, so the replicas of one
+		// request would share probes and variables)
+		AllInstrs(f, func(in ssa.Instruction) {
+			call, ok := in.(*ssa.Call)
+			if !ok {
+				return
+			}
+			o := CalleeObj(&call.Call)
+			if o == nil || o.Pkg() == nil || o.Pkg().Path() != "encoding/json" || o.Name() != "Unmarshal" || len(call.Call.Args) != 2 {
+				return
+			}
+			lp := InnermostLoopOf(call)
+			if lp == nil {
+				return
+			}
+			tgt := call.Call.Args[1]
+			if mi, isMi := tgt.(*ssa.MakeInterface); isMi {
+				tgt = mi.X
+			}
+			al, isAl := stripConv(tgt).(*ssa.Alloc)
+			fresh := isAl && lp.Blocks[al.Block()]
+			c.Check(fresh, r6, p.FuncKey(f)+":fresh-decode-target", p.InstrPos(call), "each replica is decoded into a fresh value", "the scale-up loop decodes every added replica into one value declared outside the loop: from the second added replica on the decoded configuration reuses the previous replica's probe objects and variable map, so the replicas of one request share them and end up rendered for the last one")
+		})
 		// parameters by role: found at the call site in ScaleProcess
 		var callSite *ssa.Call
 		for _, cr := range p.Callers(f) {
@@ -645,6 +694,35 @@ func runC13(c *Ctx) {
 						}
 					}
 				})
+				// the new count is written back to the stored configuration before the entry is renamed (the rename
+				// moves the stored entry, not the local copy) - on every path through a rename call
+				{
+					wb := Site{Name: "write back", Instr: func(in ssa.Instruction) bool {
+						mu, ok := in.(*ssa.MapUpdate)
+						return ok && PathOf(mu.Map).LastField() == s.FProcesses
+					}}
+					var renCalls []ssa.Instruction
+					AllInstrs(u, func(in ssa.Instruction) {
+						if call, ok := in.(*ssa.Call); ok {
+							if sc := call.Call.StaticCallee(); sc != nil && s.isRenameFn(sc) {
+								renCalls = append(renCalls, in)
+							}
+						}
+					})
+					okWB := true
+					for _, rc := range renCalls {
+						lp := InnermostLoopOf(rc)
+						start := Entry(u)
+						if lp != nil {
+							start = []Pt{{lp.Header, 0}}
+						}
+						vis := Reach(start, func(x ssa.Instruction) bool { return wb.Instr(x) }, nil)
+						if vis[rc] {
+							okWB = false
+						}
+					}
+					c.Check(okWB, r8, p.FuncKey(u)+":write-back-before-rename", FirstPos(p, u), "the new replica count is stored before the entry is renamed", "a replica whose name changes is renamed before its new Replicas value was written back to project.Processes: the renamed entry keeps the old count, so a later update to the count that is already running sees a difference and restarts those replicas")
+				}
 				c.Check(okR, r8, p.FuncKey(u)+":rename", FirstPos(p, u), "rename(old ReplicaName, CalculateReplicaName())", "replicas whose computed name changes are not renamed from their old name to the computed one")
 			}
 		}
